@@ -57,6 +57,8 @@ def structures(tier):
                 sts.append({'kind': 'twin', 'name': n, 'lookups': 0, 'after': 'twin', 'failing': True})
             if tier == 'thorough':
                 sts.append({'kind': 'twin', 'name': n, 'lookups': 1, 'len': 4})
+            # paths the proxies cannot see into (text that looks like part of the rendering itself): concrete representatives
+            sts.append({'kind': 'twin', 'name': n, 'lookups': 1, 'concrete_path': True})
     return sts
 
 
@@ -100,6 +102,17 @@ def run_static(ctx, st):
         for n in sorted(set(fams[x]) & set(fams[y])):
             ctx.check('C17/family-overlap/%s' % n, False, '%s and %s both claim %s' % (x, y, n))
     ctx.check('C17/families-disjoint', sum(len(f) for f in fams.values()) == len(allnames))
+    # the bundled table a request gets is its own: what an earlier caller did to the table it was handed (e.g. merged a
+    # device-specific codes file into it) does not make a decoder unreachable for the next request
+    from pykdebugparser.trace_codes import default_trace_codes
+    first = default_trace_codes()
+    pristine = dict(first)
+    for k in list(first)[:2000]:
+        first[k] = 'renamed_by_an_earlier_caller'
+    first[0x40c0018] = 'BSC_close'
+    again = default_trace_codes()
+    ctx.check('C17/bundled-table-independent-of-earlier-callers', dict(again) == pristine,
+              '%d ids differ after an earlier caller edited its copy' % sum(1 for k in pristine if again.get(k) != pristine[k]))
     ctx.reach()
 
 
@@ -159,7 +172,12 @@ def run_twin(ctx, st):
     a = [ctx.int('a%d' % i) for i in range(4)]
     r = [ctx.int('r%d' % i) for i in range(4)]
     lookups = []
-    if st['lookups']:
+    if st.get('concrete_path'):
+        call = base[4:] if base.startswith(('BSC_', 'MSC_')) else base
+        call = call[4:] if call.startswith('sys_') else call
+        text = ('/tmp/f%s(3), %s_nocancel(2) ), return: 5' % (call, call)).encode()
+        lookups = [(text, ctx.int('vnode'))]
+    elif st['lookups']:
         text = ctx.bytes('path', st['len'])
         for i in range(st['len']):
             ctx.assume(And(text[i] != 0, text[i] < 0x80, text[i] != 0x22, text[i] != 0x5c))
